@@ -165,6 +165,10 @@ def run(an: Analysis, rep):
     rep.run(r152, an, rep)
     rep.run(r153, an, rep, closure_mods)
     rep.run(r154, an, rep, closure_mods)
+    from .common import SharedRules, purity
+    from . import c08
+    rep.run(purity, an, rep, "R15.P", list(ENTRIES))
+    rep.run(c08.r083, an, SharedRules(rep, "R15.S", "what from_json_data builds has the shape the data classes declare (tuples, not the lists of the document) (shared with C08's R08.3): otherwise re-serialising the loaded data fails or differs"))
     rep.stats.update(an.stats(interps))
     rep.assumptions += [
         "json / orjson themselves serialise floats, strings and containers identically on 3.7..3.12",
